@@ -1,18 +1,20 @@
 """C12 -- splitters and samplers return index sets with the promised set structure.
 
-Back end B (SMT over the integers, nvwp) for the two splitters and idiv: the fold boundaries fold*chunk, the size
-spread n mod folds and the rounding (p*n+50)/100 are non-linear 64-bit arithmetic that CBMC's SAT back end cannot do.
-The extracted bodies of kfold_splitter_t::split / random_splitter_t::split are executed symbolically on the abstract
-index-vector model of specs/C12/splitmodel.py (assumed contracts of Eigen / STL, ghost position g, ghost slot d, ghost
-fold gf); every Eigen precondition that NDEBUG compiles out is an obligation.
+Back end B (SMT over the integers, nvwp) for the splitters, the samplers and idiv: the fold boundaries fold*chunk, the
+size spread n mod folds and the rounding (p*n+50)/100 are non-linear 64-bit arithmetic that CBMC's SAT back end cannot
+do, and index vectors of symbolic length with whole-range havoc cost CBMC > 70 s at a length bound of 10^4 (probed).
+The extracted bodies are executed symbolically on the abstract index-vector model of specs/C12/ixmodel.py (assumed
+contracts of Eigen / STL / tensor_t accessors, ghost input element g, ghost slot d, ghost fold gf); every Eigen /
+tensor_t precondition that NDEBUG compiles out is an obligation.  Back end A (CBMC, real memory) for the two generator
+lambdas of sample_with_replacement (element access in bounds, result is an element of the input).
 
-How the obligations give the property (for every fold, for *all* g, d, gf because they are unconstrained):
-  cnt(first)+cnt(second) == 1   every position of the shuffled input is copied exactly once, into exactly one part
-  wr(part) == [0 <= d < size]   every slot of either part is written exactly once (no hole, no overwrite)
+How the splitter obligations give the property (for every fold; for *all* g, d, gf because they are unconstrained):
+  cnt(first)+cnt(second) == [g is an input position]   every input element is copied exactly once, into exactly one part
+  wr(part) == [0 <= d < size]                          every slot of either part is filled exactly once (no hole, no overwrite)
   size(first)+size(second) == n
- => position -> (part, slot) is a bijection, so first (+) second is the shuffled input as a multiset; std::shuffle is a
- permutation of the input and std::sort a sorted permutation (assumed contracts), hence for a list of distinct indices
- the two parts are disjoint, sorted and their union is exactly the input set.
+ => element -> (part, slot) is a bijection, so first (+) second is the input as a multiset (std::shuffle permutes,
+ std::sort sorts: assumed contracts), hence for a list of distinct indices the two parts are disjoint, sorted and their
+ union is exactly the input set.
 """
 import os
 import sys
@@ -20,15 +22,23 @@ import sys
 sys.path.insert(0, os.path.dirname(os.path.abspath(__file__)))
 import astload
 import nvwp
-from core import VC
+from core import VC, Fn, Target
 from nvwp import V, AND, IMP, ITE
 from wplib import IdEnvWP, load, reach_vc
-import splitmodel
-from splitmodel import SplitWP
+import ixmodel
+from ixmodel import IxWP, FIELDS, inr
 
 NMAX = 2 ** 56      # stated size bound of an index vector (8*n bytes must fit an address space; keeps 90*n+50 < 2^63)
 KFOLD = ('src/splitter/kfold.cpp', 'kfold_splitter_t::split')
 RANDOM = ('src/splitter/random.cpp', 'random_splitter_t::split')
+STU = 'src/core/sampling.cpp'
+
+
+def fn_info(name, cxx, src, fn, wp=None):
+    d = {'c_name': name, 'cxx': cxx, 'file': src, 'line': fn.get('loc', {}).get('line'), 'sha': astload.file_hash(src)}
+    if wp is not None:
+        d['stub_mappings_used'] = dict(wp.used)
+    return d
 
 
 # ------------------------------------------------------------------------------------------------- idiv
@@ -74,36 +84,57 @@ def build_idiv():
         raise astload.ExtractionError('idiv: no return path')
     vcs = wp.vcs('idiv<long,int>', hdr, 'integer division with rounding')
     vcs.append(reach_vc(wp, 'idiv<long,int>', hdr))
-    return vcs, {'c_name': 'idiv<long,int>', 'cxx': 'idiv', 'file': hdr, 'line': fn.get('loc', {}).get('line'),
-                 'sha': astload.file_hash(hdr)}
+    return vcs, fn_info('idiv<long,int>', 'idiv', hdr, fn)
+
+
+# ------------------------------------------------------------------------------------------------- common set-up
+ING = f'(ite {inr("g", 0, "n")} 1 0)'         # g names an element of the input list
+
+
+def new_wp(name, input_name):
+    wp = IxWP(name)
+    wp.const('n', 'Int', 'long')
+    wp.assume(f'(and (<= 0 n) (<= n {NMAX}))')
+    wp.g = wp.const('g', 'Int').t       # unconstrained (n may be 0): claims are conditional on 0 <= g < n
+    wp.d = wp.const('d', 'Int').t
+    wp.decls.append('(declare-fun wpos (Int) Bool)')    # weight of input element k is positive
+    wp.input = input_name
+    wp.input_vector(input_name, 'n')
+    return wp
+
+
+def whole_sorted(e):
+    return f'(and {e("sorted")} (<= {e("slo")} 0) (<= {e("size")} {e("shi")}))'
+
+
+def filled_once(e):
+    return f'(= {e("wr")} (ite {inr("d", 0, e("size"))} 1 0))'
 
 
 # ------------------------------------------------------------------------------------------------- splitters
-RECORD = [(r, f, s) for r in ('first', 'second') for f, s in (('size', 'Int'), ('cnt', 'Int'), ('wr', 'Int'), ('sorted', 'Bool'))]
+RECORD = [(r, f, s) for r in ('first', 'second') for f, s in FIELDS]
+HAVOC = [f'splits.{r}.{f}' for r, f, _ in RECORD] + ['splits.size', 'splits.hits', 'splits.shuffles_at', 'samples.shuffles',
+                                                     'samples.gpos']
+CHUNK = '(div n p_folds)'
+LO = lambda f: f'(* {f} {CHUNK})'
+HI = lambda f: f'(ite (< (+ {f} 1) p_folds) (* (+ {f} 1) {CHUNK}) n)'
 
 
 def setup_split(name, random):
-    wp = SplitWP(name, params={})
-    n = wp.const('n', 'Int', 'long')
-    wp.assume(f'(and (<= 0 n) (<= n {NMAX}))')
+    wp = new_wp(name, 'samples')
     # registered parameter domains (src/splitter.cpp, src/splitter/random.cpp); C19 proves parameters stay inside them
     wp.params['splitter::folds'] = wp.const('p_folds', 'Int', 'long')
     wp.assume('(and (<= 2 p_folds) (<= p_folds 100))')
     wp.params['splitter::seed'] = wp.const('p_seed', 'Int', 'long')
     wp.assume('(and (<= 0 p_seed) (<= p_seed 1024))')
+    wp.seed_param = 'splitter::seed'
     if random:
         wp.params['splitter::random::train_per'] = wp.const('p_train_per', 'Int', 'long')
         wp.assume('(and (<= 10 p_train_per) (<= p_train_per 90))')
         wp.calls.append((r'^idiv\|long \(long, int\)', h_idiv))
-    # ghosts: arbitrary world position, arbitrary slot, arbitrary fold
-    wp.g = wp.const('g', 'Int').t       # unconstrained (n may be 0): claims are conditional on 0 <= g < n
-    wp.d = wp.const('d', 'Int').t
-    wp.gf = wp.const('gf', 'Int').t
+    wp.gf = wp.const('gf', 'Int').t     # arbitrary fold (folds >= 2, so this never narrows the inputs)
     wp.assume('(and (<= 0 gf) (< gf p_folds))')
-    # the by-value parameter: the input list, n initialised slots
-    wp.new_vector('samples', 'n', initialised=True)
-    wp.world = 'samples'
-    wp.env['world.shuffles'] = V('0', 'Int')
+    wp.env['samples.shuffles'] = V('0', 'Int')
 
     def init_record(s):
         for r, f, srt in RECORD:
@@ -114,34 +145,25 @@ def setup_split(name, random):
     return wp
 
 
-HAVOC = [f'splits.{r}.{f}' for r, f, _ in RECORD] + ['splits.size', 'splits.hits', 'splits.shuffles_at', 'world.shuffles']
-
-
-ING = '(ite (and (<= 0 g) (< g n)) 1 0)'     # g is a position of the input
-
-
 def pair_structure(wp, s='splits'):
-    """the set structure of the pair recorded for the ghost fold, at the ghost position g and the ghost slot d"""
-    e = lambda k: wp.env[f'{s}.{k}'].t
-    slot = lambda r: f'(= {e(r + ".wr")} (ite (and (<= 0 d) (< d {e(r + ".size")})) 1 0))'
-    return [('|training| + |validation| == n', f'(= (+ {e("first.size")} {e("second.size")}) n)'),
-            ('position g of the shuffled input is copied exactly once, to exactly one of training/validation',
-             f'(and (= (+ {e("first.cnt")} {e("second.cnt")}) {ING}) (>= {e("first.cnt")} 0) (>= {e("second.cnt")} 0))'),
-            ('every slot of the training part is written exactly once', slot('first')),
-            ('every slot of the validation part is written exactly once', slot('second')),
-            ('training part is sorted', e('first.sorted')), ('validation part is sorted', e('second.sorted'))]
-
-
-CHUNK = '(div n p_folds)'
-LO = lambda f: f'(* {f} {CHUNK})'
-HI = lambda f: f'(ite (< (+ {f} 1) p_folds) (* (+ {f} 1) {CHUNK}) n)'
+    """the set structure of the pair recorded for the ghost fold, for the ghost element g and the ghost slot d"""
+    first = lambda k: wp.env[f'{s}.first.{k}'].t
+    second = lambda k: wp.env[f'{s}.second.{k}'].t
+    return [('|training| + |validation| == n', f'(= (+ {first("size")} {second("size")}) n)'),
+            ('input element g is copied exactly once, to exactly one of training/validation',
+             f'(and (= (+ {first("cnt")} {second("cnt")}) {ING}) (>= {first("cnt")} 0) (>= {second("cnt")} 0))'),
+            ('every slot of the training part is filled exactly once', filled_once(first)),
+            ('every slot of the validation part is filled exactly once', filled_once(second)),
+            ('both parts hold elements of the input only', AND(first('memb'), second('memb'))),
+            ('training part is sorted', whole_sorted(first)), ('validation part is sorted', whole_sorted(second))]
 
 
 def kfold_pair(wp, s='splits'):
     e = lambda k: wp.env[f'{s}.{k}'].t
+    pos = wp.env['samples.gpos'].t      # where the shuffle put element g
     return pair_structure(wp, s) + [
         ('validation fold gf holds exactly the positions [gf*chunk, gf+1 < folds ? (gf+1)*chunk : n) of the shuffled input',
-         f'(= {e("second.cnt")} (ite (and (<= {LO("gf")} g) (< g {HI("gf")})) 1 0))'),
+         f'(= {e("second.cnt")} (ite (and (= {ING} 1) (<= {LO("gf")} {pos}) (< {pos} {HI("gf")})) 1 0))'),
         ('validation fold sizes differ by less than folds: chunk <= |validation| < chunk + folds',
          f'(and (<= {CHUNK} {e("second.size")}) (< {e("second.size")} (+ {CHUNK} p_folds)))'),
         ('the pair is cut from the input shuffled once with the seeded rng', f'(= {e("shuffles_at")} 1)')]
@@ -159,19 +181,21 @@ def random_pair(wp, s='splits'):
 def loop_inv(pair, random):
     def inv(wp):
         fold = wp.env['fold'].t
+        pos = wp.env['samples.gpos'].t
         out = [('0 <= fold <= folds', f'(and (<= 0 {fold}) (<= {fold} p_folds))'),
-               ('one pair per completed fold', f'(= {wp.env["splits.size"].t} {fold})')]
+               ('one pair per completed fold', f'(= {wp.env["splits.size"].t} {fold})'),
+               ('the shuffled input still holds element g inside [0, n)', f'(=> (= {ING} 1) {inr(pos, 0, "n")})')]
         if random:
-            out.append(('one reshuffle per completed fold', f'(= {wp.env["world.shuffles"].t} {fold})'))
+            out.append(('one reshuffle per completed fold', f'(= {wp.env["samples.shuffles"].t} {fold})'))
         else:
-            out.append(('input shuffled exactly once', f'(= {wp.env["world.shuffles"].t} 1)'))
+            out.append(('input shuffled exactly once', f'(= {wp.env["samples.shuffles"].t} 1)'))
             cov = f'(ite (< {fold} p_folds) (* {fold} {CHUNK}) n)'
-            out.append(('validation folds so far tile [0, covered): position g was validated once iff g < covered',
-                        f'(= {wp.env["splits.hits"].t} (ite (and (<= 0 g) (< g {cov})) 1 0))'))
+            out.append(('validation folds so far tile [0, covered): element g was validated once iff its position < covered',
+                        f'(= {wp.env["splits.hits"].t} (ite (and (= {ING} 1) (< {pos} {cov})) 1 0))'))
         for label, t in pair(wp):
             out.append((f'fold gf done => {label}', f'(=> (> {fold} gf) {t})'))
         return out
-    inv.havoc = HAVOC
+    inv.havoc = HAVOC if random else [h for h in HAVOC if h != 'samples.gpos']
     inv.decreases = lambda wp, env: f'(- p_folds {env["fold"].t})'
     return inv
 
@@ -190,7 +214,7 @@ def build_split(name, where, random):
         s = rv.t
         out = [('one (training, validation) pair per fold', f'(= {wp.env[s + ".size"].t} p_folds)')]
         if not random:
-            out.append(('the k validation folds partition the input: position g is validated by exactly one fold',
+            out.append(('the k validation folds partition the input: element g is validated by exactly one fold',
                         f'(= {wp.env[s + ".hits"].t} {ING})'))
         return out + pair(wp, s)
     wp.post = post
@@ -201,10 +225,79 @@ def build_split(name, where, random):
         raise astload.ExtractionError(f'{name}: expected one loop, found {wp.loops}')
     vcs = wp.vcs(name, src, 'set structure of the (training, validation) pairs')
     vcs.append(reach_vc(wp, name, src))
-    return vcs, {'c_name': name, 'cxx': flt, 'file': src, 'line': fn.get('loc', {}).get('line'), 'sha': astload.file_hash(src),
-                 'stub_mappings_used': dict(wp.used)}
+    return vcs, fn_info(name, flt, src, fn, wp)
 
 
+# ------------------------------------------------------------------------------------------------- samplers
+def nparams(k, weights=False):
+    return lambda d: len(astload.param_types(d)) == k and (('sample_weights_t' in ' '.join(astload.param_types(d))) == weights)
+
+
+def build_sampler(name, cxx, select, input_name, weighted=False, replacement=True):
+    fn = astload.find_definition(STU, 'nano::' + cxx, cxx, select)
+    src = astload.resolve_tu(STU)
+    wp = new_wp(name, input_name)
+    wp.env['count'] = wp.const('count', 'Int', 'long')
+    wp.env['rng'] = V('rng', 'Rng', ('true', '0'))      # the caller's generator, any state
+    if replacement:
+        # requires: 0 <= count, and a non-empty input -- the library's own assert(min <= max) inside make_udist(0, size-1)
+        # / a non-empty weight range for std::discrete_distribution
+        wp.assume(f'(and (<= 0 count) (<= count {NMAX}) (>= n 1))')
+    else:
+        # requires: the library's own assert(count <= samples.size()); property: counts 0..n
+        wp.assume('(and (<= 0 count) (<= count n))')
+    if weighted:
+        # requires: assert(samples.size() == weights.size()), assert(weights.min() >= 0) and a positive total weight
+        # (precondition of std::discrete_distribution): some ghost position gw carries a positive weight
+        wp.weights = 'weights'
+        wp.env['weights'] = V('weights', 'Weights')
+        wp.env['weights.size'] = V('n', 'Int')
+        wp.const('gw', 'Int')
+        wp.assume(f'(and {inr("gw", 0, "n")} (wpos gw))')
+
+    def post(wp, rv):
+        if rv is None or rv.s != 'Arr':
+            return [('the function returns an index vector', 'false')]
+        e = lambda k: wp.f(rv.t, k)
+        out = [('returns `count` indices', f'(= {e("size")} count)'),
+               ('every slot of the result is filled exactly once', filled_once(e)),
+               ('every element of the result is a member of the input', e('memb')),
+               ('the result is sorted', whole_sorted(e))]
+        if not replacement:
+            out.append(('the members are distinct: input element g is taken at most once, and only if it exists',
+                        f'(and (<= 0 {e("cnt")}) (<= {e("cnt")} {ING}))'))
+        if weighted:
+            out.append(('no returned index has zero weight (given std::discrete_distribution never draws one)', e('poswt')))
+        return out
+    wp.post = post
+    wp.run(fn, src)
+    if wp.returns == 0:
+        raise astload.ExtractionError(f'{name}: no return path')
+    vcs = wp.vcs(name, src, 'set structure of the sampled indices')
+    vcs.append(reach_vc(wp, name, src))
+    return vcs, fn_info(name, cxx, src, fn, wp)
+
+
+# ------------------------------------------------------------------------------------------------- CBMC: generator lambdas
+SH = 'specs/C12/sampling.h'
+T_IDX = r'tensor_t<nano::tensor_(vector|carray|marray)_storage_t, long, 1>|^nano::(indices_t|sample_indices_t)$'
+S_TYPES = [(T_IDX, 'struct nv_t1i'), (r'uniform_int_distribution<long>|udist_t<int64_t>', 'struct nv_udist'),
+           (r'^nano::rng_t$|linear_congruential_engine', 'struct nv_rng'), (r'discrete_distribution<(long|tensor_size_t)>', 'struct nv_wdist')]
+S_CALLS = [(r'^operator\(\)\|.*\|nano::tensor_t<nano::tensor_carray_storage_t, long, 1>', '{0}.p[{1}]'),
+           (r'^operator\(\)\|.*\|std::uniform_int_distribution<long>', 'nv_udist_draw({&0}, {&1})'),
+           (r'^operator\(\)\|.*\|std::discrete_distribution<long>', 'nv_wdist_draw({&0}, {&1})')]
+
+
+def lambda_targets():
+    common = dict(types=S_TYPES, calls=S_CALLS, uf_float=False)
+    gen = Fn('swr_gen', STU, 'sample_with_replacement', flt='nano::sample_with_replacement', select=nparams(3),
+             lambda_index=0, extra_params=['struct nv_t1i samples', 'struct nv_udist udist', 'struct nv_rng* rng'], **common)
+    wgen = Fn('swr_wgen', STU, 'sample_with_replacement', flt='nano::sample_with_replacement', select=nparams(4, True),
+              lambda_index=0, extra_params=['struct nv_t1i samples', 'struct nv_wdist wdist', 'struct nv_rng* rng'], **common)
+    return [Target('swr_gen', [gen], SH), Target('swr_wgen', [wgen], SH)]
+
+
+# ------------------------------------------------------------------------------------------------- lemmas
 def lemmas():
     """facts about the spec functions (no code involved)"""
     hdr = '(declare-const n Int)(declare-const p_folds Int)(declare-const f Int)\n(assert (and (<= 0 n) (<= 2 p_folds) (<= 0 f) (< f p_folds)))\n'
@@ -227,12 +320,15 @@ def lemmas():
 
 def build(tier):
     vcs, fns = [], []
-    for r in (build_idiv(), build_split('kfold_split', KFOLD, False), build_split('random_split', RANDOM, True)):
+    for r in (build_idiv(), build_split('kfold_split', KFOLD, False), build_split('random_split', RANDOM, True),
+              build_sampler('sample_without_replacement', 'sample_without_replacement', nparams(3), 'samples_', replacement=False),
+              build_sampler('sample_with_replacement', 'sample_with_replacement', nparams(3), 'samples'),
+              build_sampler('sample_with_replacement_weighted', 'sample_with_replacement', nparams(4, True), 'samples', weighted=True)):
         vcs += r[0]
         fns.append(r[1])
     vcs += lemmas()
     return {
-        'targets': [], 'vcs': vcs, 'functions': fns,
+        'targets': lambda_targets(), 'vcs': vcs, 'functions': fns,
         'decided': [],
         'not_decided': [],
         'assumptions': [],
